@@ -2,6 +2,7 @@
 //! operation, one op line (input for the Lean model driver) and one result line.
 mod fmt;
 mod rng;
+mod smallstreams;
 mod statefmt;
 mod statestream;
 mod txgen;
@@ -16,6 +17,7 @@ pub struct Out {
     pub imp: std::io::BufWriter<std::fs::File>,
     pub lines: u64,
     pub discarded: u64,
+    pub last: Option<(String, String)>,
 }
 
 impl Out {
@@ -23,16 +25,25 @@ impl Out {
         std::fs::create_dir_all(dir).unwrap();
         let ops = std::io::BufWriter::new(std::fs::File::create(format!("{}/{}.ops", dir, stream)).unwrap());
         let imp = std::io::BufWriter::new(std::fs::File::create(format!("{}/{}.impl", dir, stream)).unwrap());
-        Out { ops, imp, lines: 0, discarded: 0 }
+        Out { ops, imp, lines: 0, discarded: 0, last: None }
     }
     pub fn emit(&mut self, op: &str, res: &str) {
         debug_assert!(!op.contains('\n') && !res.contains('\n'));
         writeln!(self.ops, "{}", op).unwrap();
         writeln!(self.imp, "{}", res).unwrap();
         self.lines += 1;
+        self.last = Some((op.to_string(), res.to_string()));
     }
     pub fn emit2(&mut self, l: (String, String)) {
         self.emit(&l.0, &l.1)
+    }
+    /// an output that only remembers the last line (used to re-route a line)
+    pub fn null() -> Self {
+        let f = || std::io::BufWriter::new(std::fs::File::create("/dev/null").unwrap());
+        Out { ops: f(), imp: f(), lines: 0, discarded: 0, last: None }
+    }
+    pub fn take_last(&mut self) -> (String, String) {
+        self.last.take().unwrap_or_default()
     }
     pub fn finish(mut self) {
         self.ops.flush().unwrap();
@@ -61,6 +72,8 @@ fn main() {
                 "codec" => vmstreams::codec(&mut r, count, thorough, &mut out),
                 "weight" => vmstreams::weight(&mut r, count, thorough, &mut out),
                 "exec" => vmstreams::exec(&mut r, count, thorough, &mut out),
+                "feemult" => smallstreams::feemult(&mut r, count, thorough, &mut out),
+                "confirm" => smallstreams::confirm(&mut r, count, thorough, &mut out),
                 "apply" | "seal" | "chain" => {
                     let em = match stream {
                         "apply" => statestream::Emphasis { mutate: 300, pool_ops: 6, stake_ops: 8, blocks: 2, chain_ops: false },
